@@ -293,46 +293,51 @@ def jsonNumberPre (typ : GType) (val : GoVal) : Except Bytes GoVal :=
     else .ok val
   | _ => .ok val
 
+def varPath (v : VarDef) : Path := [.name (str "variable"), .name v.var]
+
+/-- `val, hasValue` after the `if !hasValue { … }` block of the loop of `VariableValues` -/
+def suppliedValue (vars : VarMap) (v : VarDef) : Res (Option GoVal) :=
+  match vars.lookup v.var with
+  | some x => .ok (some x)
+  | none =>
+    match v.default with
+    | some dv =>
+      match valueValueConst dv with
+      | .ok x => .ok (some x)
+      | .err e => .err e.msg (varPath v) []          -- gqlerror.WrapPath(validator.path, err)
+      | .diverge => .outOfFuel
+    | none => if v.type.nonNull then .err (str "must be defined") (varPath v) [] else .ok none
+
+/-- the `if hasValue { … }` block -/
+def coerceSupplied (s : Schema) (op : OperationDef) (v : VarDef) (coerced : GoFields) (val : GoVal) : Res GoFields :=
+  if val.isNil then
+    if v.type.nonNull then .err (str "cannot be null") (varPath v) []
+    else .ok (coerced.set v.var .nil)
+  else
+    match jsonNumberPre v.type val with
+    | .error m => .err m (varPath v) []
+    | .ok rv =>
+      match validateVarType s (fuelFor s op rv) (varPath v) v.type rv with
+      | .ok (rval, _) =>
+        -- `coercedVars[v.Variable] = rval.Interface()`
+        if rval.isNil then .panic ifaceOnZeroMsg else .ok (coerced.set v.var rval)
+      | .err m p a => .err m p a
+      | .panic m => .panic m
+      | .outOfFuel => .outOfFuel
+
 /-- one iteration of the loop of `VariableValues` -/
 def coerceVar (s : Schema) (op : OperationDef) (vars : VarMap) (v : VarDef) (coerced : GoFields) : Res GoFields :=
-  let path : Path := [.name (str "variable"), .name v.var]
   match s.type? v.type.name with
   | none => .panic nilDerefMsg                       -- `v.Definition.IsInputType()` on a nil link
   | some d =>
-    if !d.isInputType then .err (str "must an input type") path []
+    if !d.isInputType then .err (str "must an input type") (varPath v) []
     else
-      -- `val, hasValue` after the `if !hasValue` block
-      let supplied : Res (Option GoVal) :=
-        match vars.lookup v.var with
-        | some x => .ok (some x)
-        | none =>
-          match v.default with
-          | some dv =>
-            match valueValueConst dv with
-            | .ok x => .ok (some x)
-            | .err e => .err e.msg path []          -- gqlerror.WrapPath(validator.path, err)
-            | .diverge => .outOfFuel
-          | none => if v.type.nonNull then .err (str "must be defined") path [] else .ok none
-      match supplied with
+      match suppliedValue vars v with
       | .err m p a => .err m p a
       | .panic m => .panic m
       | .outOfFuel => .outOfFuel
       | .ok none => .ok coerced
-      | .ok (some val) =>
-        if val.isNil then
-          if v.type.nonNull then .err (str "cannot be null") path []
-          else .ok (coerced.set v.var .nil)
-        else
-          match jsonNumberPre v.type val with
-          | .error m => .err m path []
-          | .ok rv =>
-            match validateVarType s (fuelFor s op rv) path v.type rv with
-            | .ok (rval, _) =>
-              -- `coercedVars[v.Variable] = rval.Interface()`
-              if rval.isNil then .panic ifaceOnZeroMsg else .ok (coerced.set v.var rval)
-            | .err m p a => .err m p a
-            | .panic m => .panic m
-            | .outOfFuel => .outOfFuel
+      | .ok (some val) => coerceSupplied s op v coerced val
 
 def coerceLoop (s : Schema) (op : OperationDef) (vars : VarMap) : List VarDef → GoFields → Res GoFields
   | [], coerced => .ok coerced
